@@ -2,6 +2,7 @@ package carapace
 
 import (
 	"net/url"
+	"sort"
 	"strings"
 
 	"github.com/carapace-sh/carapace/internal/common"
@@ -146,6 +147,7 @@ func (ia InvokedAction) ToMultiPartsA(dividers ...string) Action {
 		for _, val := range uniqueVals {
 			vals = append(vals, val)
 		}
+		sort.Sort(common.ByValue(vals)) // map order must not leak: a later stage keeps the last of equal values
 
 		a := Action{rawValues: vals}
 		a.meta.Merge(ia.action.meta)
